@@ -17,12 +17,18 @@ sys.path.insert(0, HERE)
 
 def main():
     ap = argparse.ArgumentParser()
-    ap.add_argument('prop')
+    ap.add_argument('prop', nargs='?')
+    ap.add_argument('--selfcheck', action='store_true')
     ap.add_argument('--tier', default=os.environ.get('VERIF_TIER', 'quick'), choices=['quick', 'thorough'])
     ap.add_argument('--repo', default=os.environ.get('KV_REPO', '/repo'))
     ap.add_argument('--replay', default=None)
     a = ap.parse_args()
     os.environ['KV_REPO'] = a.repo
+    if a.selfcheck:
+        from kv import checks as _c, report as _r
+        _r.load_known()
+        print('kv ok: %d property checks' % len(_c.CHECKS))
+        return 0
     from kv.src import AnalysisError
     from kv import checks
     if a.replay:
